@@ -299,6 +299,53 @@ pub fn check_c03(ctx: &Ctx) -> i32 {
         }
     });
     tally.merge(tcv);
+    // automatic clocks with arguments that change from call to call: every sequence of 2..=4 (5)
+    // frame durations x every sequence of 2..=3 audio frame lengths. The argument of a call says
+    // when the NEXT frame starts; the last call's argument is not an interval between submitted
+    // timestamps, so the open-ended last sample repeats the preceding interval like everywhere else
+    let durs = [20u32, 33, 40, 1000];
+    let lens = [960u32, 1024, 480, 2048];
+    let seqs = |alpha: &[u32], lo: usize, hi: usize| -> Vec<Vec<u32>> {
+        let mut out = vec![];
+        let mut frontier: Vec<Vec<u32>> = vec![vec![]];
+        for n in 1..=hi {
+            frontier = frontier.iter().flat_map(|q| alpha.iter().map(move |&a| { let mut r = q.clone(); r.push(a); r })).collect();
+            if n >= lo {
+                out.extend(frontier.iter().cloned());
+            }
+        }
+        out
+    };
+    let vseqs = seqs(&durs, 2, if ctx.thorough { 5 } else { 4 });
+    let aseqs = seqs(&lens, 2, 3);
+    let n_vary_items = vseqs.len() * aseqs.len();
+    let tvary = par_items(&vseqs, ctx.seed, |idx, vs, t| {
+        for (ai, as_) in aseqs.iter().enumerate() {
+            let ac = if (idx + ai) % 2 == 0 { ACodec::Opus } else { ACodec::AacLc };
+            let cfg = Cfg::basic(VCodec::H264, Some(ac), (idx + ai) % 3 == 0);
+            let mut ops = vec![];
+            let (mut cv, mut ca) = (0.0f64, 0.0f64);
+            let mut ok = true;
+            for i in 0..vs.len().max(as_.len()) {
+                if let Some(&d) = vs.get(i) {
+                    ok &= tick_is_robust(cv);
+                    ops.push(Op::EV { data: Bytes::new(video_frame(VCodec::H264, i == 0, i == 0, i as u32 + 1, 4).0), dur_ms: d });
+                    cv += d as f64 / 1000.0;
+                }
+                if let Some(&n) = as_.get(i) {
+                    ok &= tick_is_robust(ca);
+                    ops.push(Op::EA { data: Bytes::new(audio_frame(ac, i as u32, 5).0), samples: n });
+                    ca += n as f64 / 48000.0;
+                }
+            }
+            if !ok {
+                t.count("skipped_tie_sensitive_timestamps", 1);
+                continue;
+            }
+            judge_history(FileProp::C03, &cfg, &ops, (5_500_000 + idx as u64, ai as u64), t);
+        }
+    });
+    tally.merge(tvary);
 
     // long deterministic traces for the no-drift clause (single executions, not samples of a space)
     let long_n = if ctx.thorough { 100_000 } else { 20_000 };
@@ -357,7 +404,7 @@ pub fn check_c03(ctx: &Ctx) -> i32 {
         Meta {
             level: "model_checking",
             rule: format!(
-                "every video DTS sequence of <= {vmax} frames over the step alphabet {{1/30, 1001/30000, 1001/24000, 1 tick, 0.4 tick, 7.3 s, 2^31 ticks, 2^31-1800 ticks, 2^31+1800 ticks}} from starts {{0, 0.5, 36000 s}}, via write_video and via write_video_with_dts with every composition-offset vector over {{0, -2/30 s, +1/30 s, +1001/24000 s (off the tick grid)}} plus an overflowing offset and the two extremes of the 32-bit field (-2^31, 2^31-1 ticks) at each single position, on H.264 and VP9 ({n_video_items} sequence items); every audio PTS sequence of <= {amax} frames over steps {{0, 1024/48000, 1024/44100, 0.02}} x start lead {{0, 0.01}} x {{AAC, Opus}} ({n_audio_items} items), each also with a refused audio call (unusable payload) between any two accepted frames; rejected writes are kept in the history and the oracle is applied to the accepted subsequence; far from zero: four-frame histories from ticks 2^40+1, 2^52+1, 2^52+2, 2^53-41 with delta patterns (3,4,5), (3000,3001,2999), (1,1,1); tick-level jitter: every step sequence of 2..{jmax} steps over {{1, 2, 3, 5}} ticks x scale {{1, 600}} for video and for audio ({n_jitter} items); automatic clocks: encode_video x encode_audio histories over 6 sample rates x frame lengths {{1024, 960, 100, 1}} x frame durations {{33, 40, 1 ms}} x {{3, 12, 60}} frames x {{AAC, Opus}} ({n_conv_items} items); plus two long single traces ({long_n} video frames at 29.97/23.976 fps with {} AAC frames at 44.1 kHz) for the no-drift clause. Oracle: stts deltas = differences of exactly rounded absolute timestamps, last-sample rule, ctts presence/values, mdhd duration = sum, no drift at any sample. Distinct by (result vector, output bytes).",
+                "every video DTS sequence of <= {vmax} frames over the step alphabet {{1/30, 1001/30000, 1001/24000, 1 tick, 0.4 tick, 7.3 s, 2^31 ticks, 2^31-1800 ticks, 2^31+1800 ticks}} from starts {{0, 0.5, 36000 s}}, via write_video and via write_video_with_dts with every composition-offset vector over {{0, -2/30 s, +1/30 s, +1001/24000 s (off the tick grid)}} plus an overflowing offset and the two extremes of the 32-bit field (-2^31, 2^31-1 ticks) at each single position, on H.264 and VP9 ({n_video_items} sequence items); every audio PTS sequence of <= {amax} frames over steps {{0, 1024/48000, 1024/44100, 0.02}} x start lead {{0, 0.01}} x {{AAC, Opus}} ({n_audio_items} items), each also with a refused audio call (unusable payload) between any two accepted frames; rejected writes are kept in the history and the oracle is applied to the accepted subsequence; far from zero: four-frame histories from ticks 2^40+1, 2^52+1, 2^52+2, 2^53-41 with delta patterns (3,4,5), (3000,3001,2999), (1,1,1); tick-level jitter: every step sequence of 2..{jmax} steps over {{1, 2, 3, 5}} ticks x scale {{1, 600}} for video and for audio ({n_jitter} items); automatic clocks: encode_video x encode_audio histories over 6 sample rates x frame lengths {{1024, 960, 100, 1}} x frame durations {{33, 40, 1 ms}} x {{3, 12, 60}} frames x {{AAC, Opus}} ({n_conv_items} items), and every sequence of 2..4 (5) encode_video durations over {{20, 33, 40, 1000 ms}} x every sequence of 2..3 encode_audio lengths over {{960, 1024, 480, 2048}} ({n_vary_items} items); plus two long single traces ({long_n} video frames at 29.97/23.976 fps with {} AAC frames at 44.1 kHz) for the no-drift clause. Oracle: stts deltas = differences of exactly rounded absolute timestamps, last-sample rule, ctts presence/values, mdhd duration = sum, no drift at any sample. Distinct by (result vector, output bytes).",
                 2 * long_n
             ),
             bound: format!("video <= {vmax} frames, audio <= {amax} frames; long traces are single deterministic executions"),
